@@ -81,6 +81,8 @@ func inBounds(i int64, n int) bool { return 0 <= wrapIndex(i, n) && wrapIndex(i,
 
 
 
+
+
 // BEGIN GENERATED members (tools/gen_member_contracts.py; edit the table there)
 
 // Every member the analyzer offers on a type exists on every value of that type.
@@ -117,7 +119,7 @@ func inBounds(i int64, n int) bool { return 0 <= wrapIndex(i, n) && wrapIndex(i,
 
 /*@ func (self ValueList) Fields
     serves C18, C02
-    ensures @has-every-offered-member ret1 == nil ==> haskey(ret0, "concat") && haskey(ret0, "contains") && haskey(ret0, "insert") && haskey(ret0, "join") && haskey(ret0, "last") && haskey(ret0, "len") && haskey(ret0, "pop") && haskey(ret0, "pop_front") && haskey(ret0, "push") && haskey(ret0, "push_front") && haskey(ret0, "remove") && haskey(ret0, "to_json") && haskey(ret0, "to_json_indent") && haskey(ret0, "to_string")
+    ensures @has-every-offered-member ret1 == nil ==> haskey(ret0, "concat") && haskey(ret0, "contains") && haskey(ret0, "insert") && haskey(ret0, "join") && haskey(ret0, "last") && haskey(ret0, "len") && haskey(ret0, "pop") && haskey(ret0, "pop_front") && haskey(ret0, "push") && haskey(ret0, "push_front") && haskey(ret0, "remove") && haskey(ret0, "sort") && haskey(ret0, "to_json") && haskey(ret0, "to_json_indent") && haskey(ret0, "to_string")
     ensures @no-interrupt ret1 == nil
 @*/
 
